@@ -198,6 +198,30 @@ Theorem dirnode_pins :
 Proof. exact dirnode_pins_ok. Qed.
 Print Assumptions dirnode_pins.
 
+(* The typed entry points from_string_dirnode / _filenode / _mutable_filenode / _verifier
+   forward their keyword arguments: what they return is what from_string returns for the same
+   string in the same context (or they raise), so they never upgrade either. *)
+Theorem typed_entry_points_agree :
+  forall i di u c, typed_from_string i di u = Ok c -> from_string di u = Ok c /\ provides i c = true.
+Proof. exact typed_entry_points_agree_ok. Qed.
+Print Assumptions typed_entry_points_agree.
+
+Theorem typed_entry_points_never_upgrade :
+  forall i di s c,
+  (typed_from_string i di (ro_prefix ++ s) = Ok c -> is_readonly c <> Some false)
+  /\ (typed_from_string i di (imm_prefix ++ s) = Ok c -> is_readonly c <> Some false /\ is_mutable c <> Some true)
+  /\ (typed_from_string i true s = Ok c -> is_readonly c <> Some false /\ is_mutable c <> Some true).
+Proof. exact typed_entry_points_never_upgrade_ok. Qed.
+Print Assumptions typed_entry_points_never_upgrade.
+
+Theorem typed_entry_pins :
+  typed_entry_table = [("from_string_dirnode", "IDirnodeURI", "from_string(s, **kwargs)");
+                       ("from_string_filenode", "IFileURI", "from_string(s, **kwargs)");
+                       ("from_string_mutable_filenode", "IMutableFileURI", "from_string(s, **kwargs)");
+                       ("from_string_verifier", "IVerifierURI", "from_string(s, **kwargs)")]%string.
+Proof. exact typed_entry_pins_ok. Qed.
+Print Assumptions typed_entry_pins.
+
 (* blacklist.ProhibitedNode (what NodeMaker wraps a blacklisted node in) passes every cap
    accessor through to the wrapped node: the models of create_from_cap and dir_store_read
    treat it as transparent *)
